@@ -309,7 +309,8 @@ def mon_c04_c06(h, obs, which):
                     import copy as _copy
                     tx = _copy.copy(tx0)
                     tx.id = tx0.hubid
-                if tx.group is not None and (tx.typ == "req" or tx.id not in ones):
+                if tx.group is not None and (tx.typ == "req" or tx.id not in ones) and tx0.id is not None:
+                    # (between two BitXHubs a request is begun one-to-one whatever it carries in Group: it stays in this monitor)
                     # a REQUEST carrying a Group declares a one-to-many child.  A receipt that carries one for an id begun
                     # one-to-one is still that transaction's receipt (the field is the sender's to fill)
                     group_ids.add(tx.id)
